@@ -81,16 +81,14 @@ class FakeClock(IClock):
         :param nanoseconds: The number of nanoseconds to advance the clock by (or if negative, the number to move it
             back by).
         """
-        with self.__lock:
-            self.advance(Duration.from_nanoseconds(nanoseconds))
+        self.advance(Duration.from_nanoseconds(nanoseconds))
 
     def advance_ticks(self, ticks: int) -> None:
         """Advances the clock by the given number of ticks.
 
         :param ticks: The number of ticks to advance the clock by (or if negative, the number to move it back by).
         """
-        with self.__lock:
-            self.advance(Duration.from_ticks(ticks))
+        self.advance(Duration.from_ticks(ticks))
 
     def advance_milliseconds(self, milliseconds: int) -> None:
         """Advances the clock by the given number of milliseconds.
@@ -98,40 +96,35 @@ class FakeClock(IClock):
         :param milliseconds: The number of milliseconds to advance the clock by (or if negative, the number to move it
             back by).
         """
-        with self.__lock:
-            self.advance(Duration.from_milliseconds(milliseconds))
+        self.advance(Duration.from_milliseconds(milliseconds))
 
     def advance_seconds(self, seconds: int) -> None:
         """Advances the clock by the given number of seconds.
 
         :param seconds: The number of seconds to advance the clock by (or if negative, the number to move it back by).
         """
-        with self.__lock:
-            self.advance(Duration.from_seconds(seconds))
+        self.advance(Duration.from_seconds(seconds))
 
     def advance_minutes(self, minutes: int) -> None:
         """Advances the clock by the given number of minutes.
 
         :param minutes: The number of minutes to advance the clock by (or if negative, the number to move it back by).
         """
-        with self.__lock:
-            self.advance(Duration.from_minutes(minutes))
+        self.advance(Duration.from_minutes(minutes))
 
     def advance_hours(self, hours: int) -> None:
         """Advances the clock by the given number of hours.
 
         :param hours: The number of hours to advance the clock by (or if negative, the number to move it back by).
         """
-        with self.__lock:
-            self.advance(Duration.from_hours(hours))
+        self.advance(Duration.from_hours(hours))
 
     def advance_days(self, days: int) -> None:
         """Advances the clock by the given number of days.
 
         :param days: The number of days to advance the clock by (or if negative, the number to move it back by).
         """
-        with self.__lock:
-            self.advance(Duration.from_days(days))
+        self.advance(Duration.from_days(days))
 
     def reset(self, instant: Instant) -> None:
         """Resets the clock to the given instant.
